@@ -515,7 +515,11 @@ class ResultQuantifier(CanBehaveLikeAVariable[T], ABC):
         This is the exposed evaluation method for users.
         """
         SymbolGraph().remove_dead_instances()
-        for node in self._all_nodes_:
+        nodes = list(self._all_nodes_)
+        for selected_variable in self._child_.selected_variables:
+            # selected variables that are not used in a condition are not part of the expression graph of the query.
+            nodes.extend(selected_variable._all_nodes_)
+        for node in nodes:
             node._reset_evaluation_state_()
         yield from map(self._process_result_, self._evaluate__())
 
@@ -968,6 +972,11 @@ class Variable(CanBehaveLikeAVariable[T]):
     """
     A dictionary mapping child variable names to variables, these are from the _kwargs_ dictionary. 
     """
+    _ranges_over_all_instances_: bool = field(default=False, init=False, repr=False)
+    """
+    Whether this variable was declared without a domain and ranges over all instances of its type that exist when a
+    query is evaluated.
+    """
 
     def __post_init__(self):
         self._validate_inputs_and_fill_missing_ones_()
@@ -993,6 +1002,17 @@ class Variable(CanBehaveLikeAVariable[T]):
             elif not is_iterable(domain):
                 domain = [HashedValue(domain)]
             self._domain_.set_iterable(domain)
+
+    def _reset_evaluation_state_(self) -> None:
+        """
+        A variable that was declared without a domain ranges over the instances that exist now, not over those that
+        existed when the query was evaluated the last time.
+        """
+        if self._ranges_over_all_instances_:
+            self._domain_ = HashedIterable()
+            self._domain_.set_iterable(
+                SymbolGraph().get_instances_of_type(self._type_)
+            )
 
     def _update_child_vars_from_kwargs_(self):
         for k, v in self._kwargs_.items():
